@@ -602,7 +602,7 @@ def near_from(case, rng):
 
 
 ENUM = {
-    "st": (["K", "k1", ".pos", ".coord", " ", ".", "1", "pos", "\t"], 4),
+    "st": (["K", "k1", ".pos", ".coord", " ", ".", "1", "pos", "coord", "\t"], 4),
     "lv": (["PE", "[0..", "[", "0", "..", ".", "15", "]", " "], 4),
     "rt": (["(", ")", ",", "K", "M1", " ", "2"], 5),
     "dir": (["uniform_shape(", "uniform_occupancy(", "flatten(", "follow(", "nway_shape(", "K", "4", ".", ")", " ", "("], 4),
@@ -618,6 +618,46 @@ def enum_cases(g, rng, limit):
     if limit is not None and len(allseq) > limit:
         allseq = rng.sample(allseq, limit)
     return [{"g": g, "kind": "enum", "s": "".join(q), "how": "enum"} for q in allseq]
+
+
+def systematic_cases(g, gens):
+    """Deterministic near-misses (so that a broken literal terminal / numeral / whitespace rule is not found by
+    luck): every LITERAL_BREAKS variant and every NUMLIKE spelling on a few generated strings, every NOISE
+    character inserted at every position (and every single deletion) of two short ones, uniform gap layouts."""
+    out = []
+
+    def add(s, how):
+        out.append({"g": g, "kind": "sys", "s": s, "how": how})
+    for lit, variants in LITERAL_BREAKS.items():
+        base = [c for c in gens if lit in c["toks"]][:4]
+        for c in base:
+            j = c["toks"].index(lit)
+            for v in variants:
+                for glue in (False, True):
+                    toks = list(c["toks"])
+                    toks[j] = v
+                    gaps = ["" for _ in c["gaps"]] if glue else c["gaps"]
+                    add(lay_out(toks, gaps), "sys-literal-break")
+    base = [c for c in gens if any(is_num(t) for t in c["toks"])][:4]
+    for c in base:
+        nums = [j for j, t in enumerate(c["toks"]) if is_num(t)]
+        for j in (nums[0], nums[-1]):
+            for v in NUMLIKE:
+                toks = list(c["toks"])
+                toks[j] = v
+                add(lay_out(toks, c["gaps"]), "sys-num-like")
+    short = sorted([c for c in gens if 6 <= len(c["s"]) <= 30], key=lambda c: -len(c["s"]))[:1]
+    for c in short:
+        s = c["s"]
+        for i in range(len(s) + 1):
+            for ch in NOISE:
+                add(s[:i] + ch + s[i:], "sys-char-insert")
+            if i < len(s):
+                add(s[:i] + s[i + 1:], "sys-char-delete")
+    for c in gens[:6]:
+        for gap in ("", " ", "\t", " \t "):
+            add(lay_out(c["toks"], [gap for _ in c["gaps"]]), "sys-uniform-gaps")
+    return out
 
 
 FIXED = {
@@ -646,12 +686,12 @@ FIXED = {
 def population(ctx):
     rng = ctx.rng
     q = ctx.quick()
-    plan = {"eq": (600, 1300, 400), "dir": (300, 700, 500), "rt": (200, 400, 500), "st": (150, 350, 400), "lv": (200, 450, 500)}
+    plan = {"eq": (700, 2000, 1500), "dir": (300, 1200, 2000), "rt": (200, 700, 2000), "st": (150, 600, 4000), "lv": (200, 800, 4000)}
     cases = []
     for g in GRAMMARS:
         ngen, nnear, nenum = plan[g]
         if not q:
-            ngen, nnear, nenum = ngen * 5, nnear * 5, None if g != "eq" else 12000
+            ngen, nnear, nenum = ngen * 8, nnear * 6, None if g != "eq" else 30000
         gens = [gen_case(g, rng) for _ in range(ngen)]
         cases.extend(gens)
         for _ in range(nnear):
@@ -659,6 +699,7 @@ def population(ctx):
             s2, how = near_from(base, rng)
             cases.append({"g": g, "kind": "near", "s": s2, "how": how})
         cases.extend(enum_cases(g, rng, nenum))
+        cases.extend(systematic_cases(g, gens))
         for s in FIXED[g]:
             cases.append({"g": g, "kind": "fixed", "s": s, "how": "fixed"})
     # de-duplicate per grammar (keep the generated one, which carries its tree)
@@ -933,7 +974,7 @@ def run(ctx):
     res = model_eval("c17", cases)
     phase["kernel_evaluation"] = round(time.time() - t0, 1)
     t0 = time.time()
-    stats = {g: {"strings": 0, "generated": 0, "near_miss": 0, "enumerated": 0, "fixed": 0, "code_accepts": 0, "code_rejects": 0,
+    stats = {g: {"strings": 0, "generated": 0, "near_miss": 0, "enumerated": 0, "systematic": 0, "fixed": 0, "code_accepts": 0, "code_rejects": 0,
                  "near_miss_accepted": 0, "rejected_by": {}, "edits": {}} for g in GRAMMARS}
     views = set()
     mism = []
@@ -941,7 +982,7 @@ def run(ctx):
         g = c["g"]
         st = stats[g]
         st["strings"] += 1
-        st[{"gen": "generated", "near": "near_miss", "enum": "enumerated", "fixed": "fixed"}[c["kind"]]] += 1
+        st[{"gen": "generated", "near": "near_miss", "enum": "enumerated", "sys": "systematic", "fixed": "fixed"}[c["kind"]]] += 1
         flags, model = r
         if c["kind"] == "gen":
             if flags != "PWB":
